@@ -190,7 +190,7 @@ def main():
                                  "Definition sk_json : skel :=\n  %s." % js,
                                  "Definition sk_print_file : skel :=\n  %s." % pf,
                                  "Definition sk_main_file : skel :=\n  %s." % mf] + dirs + [""])
-    except (ValueError, OSError, SyntaxError) as e:
+    except Exception as e:  # noqa: BLE001 (fail-closed: whatever goes wrong gives the stub)
         sys.stderr.write("extract_clean: %s\n" % e)
         reason = str(e).replace("*)", "* )").replace("(*", "( *")[:300]
         text = "\n".join(head + ["(* STUB: %s *)" % reason, "Definition ok_clean : bool := false.",
